@@ -417,6 +417,18 @@ def complete(ctx, prog, wa, cba, fparam, sinks, saves, closes):
 _check_c01_second = check
 
 
+def ev_str(node):
+    """a literal SQL text: a string constant or implicitly concatenated constants"""
+    if isinstance(node, ast.Constant) and isinstance(node.value, str):
+        return node.value
+    if isinstance(node, ast.JoinedStr):
+        return None
+    if isinstance(node, ast.BinOp) and isinstance(node.op, ast.Add):
+        a, b = ev_str(node.left), ev_str(node.right)
+        return a + b if a is not None and b is not None else None
+    return None
+
+
 def siblings(ctx):
     """BlobFile / BlobBuffer refine AbstractBlob and BlobManager hands out ONE object per hash: the guarantees decided on the base class
     hold for the objects the daemon really uses only if the overrides keep the base behaviour as a component."""
@@ -474,6 +486,37 @@ def siblings(ctx):
         ok = a[:4] == ["self.loop", gb.fi.params()[1], gb.fi.params()[2], "self.blob_completed"]
         ctx.ob("C01-D6/DEP", ok, gb.site(c), f"{call_name(c)} objects are built for the requested hash and length with the manager's completion callback", func=gb.fi.qualname,
                key=f"C01-D6/DEP|{gb.fi.qualname}|{call_name(c)}-args")
+    for fn in ("get_blob", "is_blob_verified"):
+        f = ctx.fa(f"{bm}.{fn}")
+        hp_, lp_ = f.fi.params()[1:3]
+        for c in f.calls(dotted_name="self._get_blob"):
+            ok = len(c.args) >= 2 and dotted(c.args[0]) == hp_ and dotted(c.args[1]) == lp_ or \
+                (len(c.args) >= 1 and dotted(c.args[0]) == hp_ and dotted(kwarg(c, "length")) == lp_)
+            ctx.ob("C01-D6/DEP", bool(ok), f.site(c), f"{fn} builds the blob object with the caller's hash AND expected length (BlobFile.__init__ compares an existing file's size "
+                   "with it; without it any file of that name is adopted as verified)", func=f.fi.qualname, key=f"C01-D6/DEP|{bm}.{fn}|_get_blob-args|{c.lineno - f.fi.node.lineno}")
+    # "announced only if verified": what the announcer is handed comes from this query; a blob counts only with status 'finished' (written by blob_completed for
+    # a BlobFile), whatever its announce flags say — as a top-level conjunct of the WHERE condition, not inside an OR
+    from .. import sqlwhere
+    ga = ctx.fa("lbry.extras.daemon.storage.SQLiteStorage.get_blobs_to_announce.<locals>.get_and_update")
+    n = 0
+    for c in ga.calls(name="execute"):
+        if not c.args:
+            continue
+        try:
+            sql = ev_str(c.args[0])
+        except Exception:
+            sql = None
+        if sql is None or not sql.lstrip().lower().startswith("select"):
+            continue
+        n += 1
+        try:
+            cj = sqlwhere.conjuncts(sql)
+        except ValueError as e:
+            cj = [f"<unreadable: {e}>"]
+        ok = "status='finished'" in cj and "blob_hash is not null" in cj
+        ctx.ob("C01-D7/SQL", ok, ga.site(c), "the announce query selects finished blobs only: `status='finished'` is a top-level conjunct of its WHERE condition", detail="" if ok else
+               "top-level conjuncts: " + " AND ".join(cj), func=ga.fi.qualname, key=f"C01-D7/SQL|announce|{n}")
+    ctx.floor("C01-D7/SQL", "announce queries", n, 2, site=ga.site(), func=ga.fi.qualname)
     # blob objects are created by the manager only (two objects for one hash = two independent `writing` flags)
     R.callers_only(ctx, "C01-D6/CALLERS", "_get_blob", [f"{bm}.get_blob", f"{bm}.is_blob_verified", f"{bm}._get_blob"], "blob object factory", floor=2, module_prefix="lbry")
 
